@@ -287,7 +287,29 @@ func (c *Ctx) constructorChain() {
 	}
 	c.Check(fromTemplate, "C06.1-constructor", "newStatefulSetPod: pod := GetPodFromTemplate(...)", fi.Decl.Pos(), "the returned pod is the template instance", "the returned pod is not the template instance with a controller reference")
 	c.Check(c.topLevelAssign(fi, fn, "$1.Name", "getPodName($2, $3)", pod, set, ord), "C06.1-name", "newStatefulSetPod: pod.Name", fi.Decl.Pos(), "pod.Name = getPodName(set, ordinal), unconditionally", "the pod name is not getPodName(set, ordinal) for the constructor's own ordinal")
-	c.Check(initID, "C06.1-identity-initialised", "newStatefulSetPod: initIdentity(set, pod)", fi.Decl.Pos(), "called unconditionally on the returned pod", "initIdentity is not applied to the returned pod")
+	// what the constructor hands back, whichever helpers it goes through: at its return the facts about the pod give
+	// name, namespace, pod-name label, hostname and subdomain
+	{
+		_, ran := c.Analysis(fi)
+		st := ran.StateBefore(last)
+		for _, w := range []struct {
+			rule, what string
+			tmpl       []string
+		}{
+			// (the identity helper re-derives the name from the ordinal it parses out of the name set just before: either form)
+			{"C06.1-returned-name", "pod.Name = getPodName(set, ordinal)", []string{"$1.Name == getPodName($2, $3)", "$1.Name == getPodName($2, getOrdinal($1))"}},
+			{"C06.1-returned-namespace", "pod.Namespace = set.Namespace", []string{"$1.Namespace == $2.Namespace"}},
+			{"C06.1-returned-hostname", "hostname = pod name", []string{"$1.Spec.Hostname == $1.Name"}},
+			{"C06.1-returned-subdomain", "subdomain = governing service", []string{"$1.Spec.Subdomain == $2.Spec.ServiceName"}},
+		} {
+			var alts []*gf.Formula
+			for _, t := range w.tmpl {
+				alts = append(alts, c.Want(fn, last.Pos(), t, pod, set, ord))
+			}
+			c.Implies(st, gf.Or(alts...), w.rule, "newStatefulSetPod: "+w.what+" at the return", last.Pos())
+		}
+	}
+	_ = initID
 	c.Check(updStor, "C06.1-storage-rewritten", "newStatefulSetPod: updateStorage(set, pod)", fi.Decl.Pos(), "called unconditionally on the returned pod", "updateStorage is not applied to the returned pod")
 	// controllerKind value
 	if ck, ok := c.P.Lookup(load.CtrlPkg, "controllerKind").(*types.Var); ok {
@@ -316,6 +338,9 @@ func (c *Ctx) constructorChain() {
 		{"updateIdentity", "$2.Namespace", "$1.Namespace", "C06.1-namespace", "namespace = set's namespace"},
 		{"updateIdentity", "$2.Labels[apps.StatefulSetPodNameLabel]", "$2.Name", "C06.1-pod-name-label", "pod-name label = pod name"},
 	} {
+		if a.fn == "initIdentity" && c.P.Func(load.CtrlPkg, a.fn) == nil && c.renames()[load.CtrlPkg+"|"+a.fn] == nil {
+			continue // written out in the constructor: C06.1-returned-hostname / -subdomain decide it there
+		}
 		f := c.Func(load.CtrlPkg, a.fn)
 		if f == nil {
 			continue
@@ -329,7 +354,7 @@ func (c *Ctx) constructorChain() {
 		}
 		c.Check(len(ps) == 2 && c.topLevelAssign(f, ffn, a.lhs, a.rhs, ps...), a.rule, a.fn+": "+a.what, f.Decl.Pos(), "unconditional top-level assignment", a.fn+" does not set "+a.what+" unconditionally")
 	}
-	if ii := c.Func(load.CtrlPkg, "initIdentity"); ii != nil {
+	if ii := c.P.Func(load.CtrlPkg, "initIdentity"); ii != nil {
 		okc := false
 		for _, call := range topLevelCalls(ii) {
 			if calleeName(ii.Pkg.TypesInfo, call) == load.CtrlPkg+".updateIdentity" {
@@ -366,7 +391,12 @@ func (c *Ctx) constructorChain() {
 				case nf.name == "getPodName" && len(ps) == 2:
 					want = []string{"s:" + c.WantTerm(ffn, ret.Pos(), "$1.Name", ps[0]).Key(), "l:-", "d:" + ffn.Term(ps[1]).Key()}
 				case nf.name == "getPersistentVolumeClaimName" && len(ps) == 3:
-					want = []string{"s:" + c.WantTerm(ffn, ret.Pos(), "$1.Name", ps[1]).Key(), "l:-", "s:" + c.WantTerm(ffn, ret.Pos(), "$1.Name", ps[0]).Key(), "l:-", "d:" + ffn.Term(ps[2]).Key()}
+					// the template claim, or its name
+					first := ffn.Term(ps[1])
+					if bt, isB := f.Pkg.TypesInfo.TypeOf(ps[1]).Underlying().(*types.Basic); !isB || bt.Kind() != types.String {
+						first = c.WantTerm(ffn, ret.Pos(), "$1.Name", ps[1])
+					}
+					want = []string{"s:" + first.Key(), "l:-", "s:" + c.WantTerm(ffn, ret.Pos(), "$1.Name", ps[0]).Key(), "l:-", "d:" + ffn.Term(ps[2]).Key()}
 				}
 				ok = okParts && want != nil && strings.Join(got, "|") == strings.Join(want, "|")
 			}
@@ -601,7 +631,7 @@ func (c *Ctx) claimBuilder() {
 				if call, ok := as.Rhs[0].(*ast.CallExpr); ok && calleeName(info, call) == load.CtrlPkg+".getPersistentVolumeClaimName" && len(call.Args) == 3 {
 					o := defRHS(fi, info, call.Args[2])
 					if oc, ok := o.(*ast.CallExpr); ok && calleeName(info, oc) == load.CtrlPkg+".getOrdinal" && fn.Term(oc.Args[0]).Key() == fn.Term(podP).Key() &&
-						fn.Term(call.Args[0]).Key() == fn.Term(setP).Key() && termIs(fn.Term(call.Args[1]), c.TryWantTerm(fn, as.Pos(), "&$1", claim)) {
+						fn.Term(call.Args[0]).Key() == fn.Term(setP).Key() && (termIs(fn.Term(call.Args[1]), c.TryWantTerm(fn, as.Pos(), "&$1", claim)) || termIs(fn.Term(call.Args[1]), c.TryWantTerm(fn, as.Pos(), "$1.Name", claim))) {
 						nameOK = true
 					}
 				}
